@@ -385,6 +385,8 @@ struct EvalCase {
     bmap1: bool,
     /// replayed witness of that phase: the changed field and its new value
     alts: Vec<(String, J)>,
+    /// C13: further files of the group (path, source, is a script); when present the all-templates bundle is executed
+    files: Vec<(String, String, bool)>,
 }
 #[derive(Clone)]
 enum FileSrc { Text(String), Rep(String, usize) }
@@ -433,7 +435,7 @@ fn ev(family: &'static str, src: String, checks: Vec<(&str, String, bool)>, vars
     EvalCase {
         family, path: "a".into(), src, name: String::new(),
         checks: checks.into_iter().map(|(s, e, q)| (s.to_string(), e, q)).collect(),
-        guards: vec![], vars, pool, pick, flat: None, any_diag: false, bmap1: family == "bmap", alts: vec![],
+        guards: vec![], vars, pool, pick, flat: None, any_diag: false, bmap1: family == "bmap", alts: vec![], files: vec![],
     }
 }
 
@@ -1089,6 +1091,49 @@ fn family_c12(out: &mut Vec<Case>) {
     }
 }
 
+// ------------------------------------------------------------------------------------------------ C13 family
+/// the key a template path is registered under (the same stack normalisation the PATH unit proves for path::normalize)
+pub fn norm_path(p: &str) -> String {
+    let mut segs: Vec<&str> = vec![];
+    for s in p.split('/') { match s { "." => {} ".." => { segs.pop(); } x => segs.push(x) } }
+    segs.join("/")
+}
+fn c13_case(label: &str, main: &str, files: Vec<(&str, &str, bool)>, want_texts: &str, out: &mut Vec<Case>) {
+    let mut c = ev("c13", main.to_string(), vec![("t", want_texts.to_string(), true)], vec!["a".into()], pool_of(&["7"]), Pick::All);
+    c.path = "p/m".into();
+    c.name = String::new();
+    c.files = files.into_iter().map(|(p, s, sc)| (p.to_string(), s.to_string(), sc)).collect();
+    let _ = label;
+    out.push(Case::Eval(c));
+}
+/// cross-file linking, EXECUTED through the all-templates bundle: which definition a `<template is>` reaches, what an
+/// `<include>` renders, which module an external `<wxs>` binds -- for every spelling of the reference
+fn family_c13(out: &mut Vec<Case>) {
+    let lib_a = ("lib/a", "<template name=\"x\">A</template><template name=\"y\">Y</template>", false);
+    let lib_b = ("lib/b", "<template name=\"x\">B</template>", false);
+    let lib_c = ("lib/c", "<template name=\"z\">Z</template>", false);
+    let lib_t = ("lib/t", "<import src=\"c\"/><template name=\"w\">W<template is=\"z\"/></template>", false);
+    for sp in ["../lib/a", "/lib/a", "./../lib/a", "../lib/a.wxml", "/lib/../lib/a", "/./lib/a", "../lib/./a", "../../lib/a"] {
+        // a local definition beats the import; a name only the import has comes from the import
+        c13_case("local", &format!("<import src=\"{}\"/><template name=\"x\">L</template><template is=\"x\"/>|<template is=\"y\"/>", sp), vec![lib_a], "[\"L\", \"|\", \"Y\"]", out);
+        c13_case("local-first", &format!("<template name=\"x\">L</template><import src=\"{}\"/><template is=\"x\"/>", sp), vec![lib_a], "[\"L\"]", out);
+        // a later import beats an earlier one
+        c13_case("later", &format!("<import src=\"{}\"/><import src=\"../lib/b\"/><template is=\"x\"/>", sp), vec![lib_a, lib_b], "[\"B\"]", out);
+        c13_case("later2", &format!("<import src=\"../lib/b\"/><import src=\"{}\"/><template is=\"x\"/>", sp), vec![lib_a, lib_b], "[\"A\"]", out);
+    }
+    // imports are not transitive: z is visible inside lib/t, not in the importer
+    c13_case("transitive", "<import src=\"../lib/t\"/><template is=\"w\"/>|<template is=\"z\"/>", vec![lib_t, lib_c], "[\"W\", \"Z\", \"|\"]", out);
+    // a missing target renders nothing
+    c13_case("missing", "<import src=\"../lib/none\"/>a<template is=\"x\"/>b", vec![lib_a], "[\"a\", \"b\"]", out);
+    // include and external scripts, by every spelling
+    for sp in ["../lib/i", "/lib/i", "../lib/i.wxml", "/lib/../lib/i", "/./lib/i", "./../lib/./i"] {
+        c13_case("include", &format!("<include src=\"{}\"/>", sp), vec![("lib/i", "<view>I{{ a }}</view>", false)], "[\"I7\"]", out);
+    }
+    for sp in ["../lib/s", "/lib/s", "../lib/s.wxs", "/lib/../lib/s", "/./lib/s.wxs"] {
+        c13_case("script", &format!("<wxs module=\"m\" src=\"{}\"/><view>{{{{ m.k }}}}</view>", sp), vec![("lib/s", "exports.k = 5", true)], "[\"5\"]", out);
+    }
+}
+
 // ------------------------------------------------------------------------------------------------ C02 families
 fn pc(family: &'static str, files: Vec<(&str, String)>, scripts: Vec<(&str, &str)>, out: &mut Vec<Case>) {
     for dev in [false, true] {
@@ -1243,6 +1288,7 @@ fn all_cases() -> Vec<Case> {
     family_scope(&mut v);
     family_c05(&mut v);
     family_c12(&mut v);
+    family_c13(&mut v);
     if known_mode() {
         family_hoist(&mut v);
         for k in KNOWN { if let Some(c) = decode_input(k) { v.push(c); } }
@@ -1268,6 +1314,7 @@ fn encode_eval_alt(c: &EvalCase, tuple: &[usize], alt: Option<(String, J)>) -> S
     if !c.guards.is_empty() { o.push(("guards", J::Arr(c.guards.iter().map(|g| js(g)).collect()))); }
     if c.any_diag { o.push(("anydiag", J::Bool(true))); }
     if let Some((f, v)) = alt { o.push(("alts", J::Obj(vec![(f, v)]))); } else if !c.alts.is_empty() { o.push(("alts", J::Obj(c.alts.clone()))); }
+    if !c.files.is_empty() { o.push(("gfiles", J::Arr(c.files.iter().map(|(p, s, sc)| J::Arr(vec![js(p), js(s), J::Bool(*sc)])).collect()))); }
     jo(o).text()
 }
 fn encode_parse(c: &ParseCase) -> String {
@@ -1299,6 +1346,7 @@ fn decode_input(input: &str) -> Option<Case> {
                 any_diag: j.get("anydiag").map(|d| d.truthy()).unwrap_or(false),
                 bmap1: j.get("alts").is_some(),
                 alts: if let Some(J::Obj(o)) = j.get("alts") { o.clone() } else { vec![] },
+                files: j.get("gfiles").map(|f| f.arr().iter().map(|x| (x.arr()[0].str().unwrap_or("").to_string(), x.arr()[1].str().unwrap_or("").to_string(), x.arr()[2].truthy())).collect()).unwrap_or_default(),
             }))
         }
         "parse" => Some(Case::Parse(ParseCase {
@@ -1317,7 +1365,7 @@ fn decode_input(input: &str) -> Option<Case> {
 
 /// the property a case belongs to (family, or the path prefix of a replayed witness)
 fn prop_of(c: &EvalCase) -> &'static str {
-    if c.family == "c05" || c.path.starts_with("c05/") { "C05" } else if c.family == "c12" || c.path.starts_with("c12/") { "C12" } else { "C03" }
+    if c.family == "c13" || !c.files.is_empty() { "C13" } else if c.family == "c05" || c.path.starts_with("c05/") { "C05" } else if c.family == "c12" || c.path.starts_with("c12/") { "C12" } else { "C03" }
 }
 enum Compiled { Line(String), Early(Outcome), Dup }
 fn found(input: String, observed: String, expected: String) -> Outcome {
@@ -1332,9 +1380,11 @@ fn compile(id: usize, case: &Case, seen: &mut std::collections::HashSet<String>)
             let r = std::panic::catch_unwind(move || {
                 let mut g = TmplGroup::new();
                 let diags = g.add_tmpl(&c2.path, &c2.src);
+                for (p, s, script) in &c2.files { if *script { g.add_script(p, s); } else { let _ = g.add_tmpl(p, s); } }
                 // Note / Warn diagnostics (e.g. `duplicated name` for `{ x: 1, x: 2 }`) do not reject the expression
                 let diag = diags.iter().filter(|d| d.prevent_success()).map(|d| format!("{:?}", d)).collect::<Vec<_>>().join("; ");
-                (diag, g.get_runtime_string(), g.get_tmpl_gen_object(&c2.path).map_err(|e| e.to_string()))
+                let code = if c2.files.is_empty() { g.get_tmpl_gen_object(&c2.path).map_err(|e| e.to_string()) } else { g.get_tmpl_gen_object_groups().map_err(|e| e.to_string()) };
+                (diag, g.get_runtime_string(), code)
             });
             let input = encode_eval(c, &first_tuple(c));
             let (diag, runtime, code) = match r {
@@ -1352,6 +1402,7 @@ fn compile(id: usize, case: &Case, seen: &mut std::collections::HashSet<String>)
             ];
             if let Some(f) = &c.flat { o.push(("flat", js(f))); }
             if c.bmap1 { o.push(("bmap1", J::Bool(true))); }
+            if !c.files.is_empty() { o.push(("group", J::Bool(true))); o.push(("gpath", js(&norm_path(&c.path)))); }
             if !c.alts.is_empty() { o.push(("alts", J::Obj(c.alts.clone()))); }
             let body = jo(o).text();
             // the two parenthesisations of a tree usually compile to the same code: execute it once
@@ -1430,7 +1481,7 @@ fn judge(case: &Case, r: &J) -> (Option<Outcome>, u64) {
                 return (Some(found(
                     encode_eval_alt(c, &tuple, alt),
                     format!("[{} {}] {} with data {}: {} observation {} = {}", if c07 { "C07" } else { prop_of(c) }, c.family, clip(&c.src), g("env"), g("phase"), g("sel"), clip(&g("got"))),
-                    format!("{} ({})", clip(&g("want")), if c07 { "value of a fresh evaluation on the changed data: an offered binding-map updater must bring the node there" } else { match prop_of(c) { "C05" => "reference resolver: innermost enclosing scope that introduces the name, else data field", "C12" => "reference decoder: the code points the source denotes", _ => "JavaScript value of the fully parenthesised tree" } }),
+                    format!("{} ({})", clip(&g("want")), if c07 { "value of a fresh evaluation on the changed data: an offered binding-map updater must bring the node there" } else { match prop_of(c) { "C05" => "reference resolver: innermost enclosing scope that introduces the name, else data field", "C12" => "reference decoder: the code points the source denotes", "C13" => "WXML linking: a local definition beats every import, a later import beats an earlier one, imports are not transitive, references resolve by normalised path", _ => "JavaScript value of the fully parenthesised tree" } }),
                 )), n);
             }
             (None, n)
